@@ -36,7 +36,9 @@ def load_json(path, default):
 
 def formula_hash(ob):
     try:
-        txt = str(ob.goal) + "|" + "|".join(sorted(str(h) for h in ob.hyps))
+        # structural hashes (printing large shared DAGs can be exponential)
+        g = ob.goal.hash() if hasattr(ob.goal, "hash") else hash(str(ob.goal))
+        txt = f"{g}|" + "|".join(sorted(str(h.hash()) for h in ob.hyps))
     except Exception:
         txt = repr(ob.goal)
     return hashlib.sha256(txt.encode()).hexdigest()[:16]
